@@ -104,10 +104,10 @@ PROPS["C15"] = {
 }
 
 PROPS["C19"] = {
-    "level_text": "Theorems (Lean 4): a model of the protobuf wire encoding of the Rpc schema (varints, length-delimited fields, nested and repeated messages, google.protobuf.Any details, proto3 default omission, unknown-field skipping incl. groups, merge semantics, UTF-8 validity as Go's utf8.Valid) with proto_roundtrip: decode (encode m) = some m for EVERY well-formed envelope; decode is total and independent of its fuel; unknown fields are skipped; concatenation is merge. Over any codec satisfying that law: what a websocket / channel / HTTP transport reads is what was written, in order; a non-binary or undecodable websocket message is an error and never a delivery; ServeHTTP answers 400 exactly for no body / unreadable / undecodable / no header / empty source / unmappable source and delivers only on 200; the idle-cleaner transition system (fake clock) fails readers and never panics a concurrent sender; a blocked Read returns once its context is done. Negative witnesses for the repair flags. Tied to /repo by flags (cleaner uses a done channel, Read and Write honour the context), the http.go/channel.go skeletons, and a lock-step: Go's proto.Marshal/Unmarshal against the Lean codec on generated envelopes (all 32 presence masks, id edges, bodies to 64 KiB / 1 MiB) and on random/mutated raw inputs; real loopback websocket, channel and httptest transports for round trips, rejection, blocked-operation cancellation, request shapes (status compared with the model) and every placement of the idle tick relative to an in-progress delivery.",
+    "level_text": "Theorems (Lean 4): a model of the protobuf wire encoding of the Rpc schema (varints, length-delimited fields, nested and repeated messages, google.protobuf.Any details, proto3 default omission, unknown-field skipping incl. groups, merge semantics, UTF-8 validity as Go's utf8.Valid) with proto_roundtrip: decode (encode m) = some m for EVERY well-formed envelope; decode is total and independent of its fuel; unknown fields are skipped; concatenation is merge. Over any codec satisfying that law: what a websocket / channel / HTTP transport reads is what was written, in order; a non-binary or undecodable websocket message is an error and never a delivery; ServeHTTP answers 400 exactly for no body / unreadable / undecodable / no header / empty source / unmappable source and delivers only on 200; the idle-cleaner transition system (fake clock) fails readers and never panics a concurrent sender; a blocked Read returns once its context is done; the HTTP connection TABLE as a transition system over any number of addresses and connection objects (retrieve, idle sweep, the cancel hook of a failing Write): no `done` channel is ever closed twice - nothing in the table code can crash its caller, also not a Write on an object that idled out long ago and whose address was taken over (http_table_never_panics) - an object is registered iff its `done` is open, so a Read on an unregistered connection fails at once (registered_iff_open, sweep_fails_readers), one connection per address. Negative witnesses for the repair flags. Tied to /repo by flags (cleaner uses a done channel, Read and Write honour the context), the http.go/channel.go skeletons, and a lock-step: Go's proto.Marshal/Unmarshal against the Lean codec on generated envelopes (all 32 presence masks, id edges, bodies to 64 KiB / 1 MiB) and on random/mutated raw inputs; real loopback websocket, channel and httptest transports for round trips, rejection, blocked-operation cancellation, request shapes (status compared with the model) every placement of the idle tick relative to an in-progress delivery, and random operation sequences over the connection table (NewConnection / idle-out / failing Write / Read on any object ever created) compared op by op with the table model (`httptable`).",
     "level_note": "Trusted: Lean kernel; extractor; harness. coder/websocket and net/http are library code. The Lean codec drops unknown fields (Go preserves them): lock-step compares known fields. Go's 2 GiB limit is not modelled.",
     "technique": "Lean 4 proof (protobuf wire codec round trip by induction; transport laws parametric in the codec) + flags/skeletons from source + lock-step of Go's proto codec and the three real transports against the model",
-    "props": ["Goat.ProtoThms", "Goat.TransportThms"],
+    "props": ["Goat.ProtoThms", "Goat.TransportThms", "Goat.HttpTableThms"],
     "tie": ["Goat.Tie.C19"],
     "rule": "codec cases: generated envelopes (presence masks x id/int32 edges x string/body sizes) through pbenc/pbdec; raw cases: random and mutated byte strings plus ~100 hand-built wire corner cases through pbdec; transport cases: round trips, raw websocket messages, HTTP request shapes (httpcode), blocked Read/Write vs cancellation, idle-tick placements before/during/after a delivery with and without a reader; non-trivial = every case",
     "modelled_not_verified": COMMON_MNV + ["coder/websocket", "net/http", "clockwork fake clock"],
